@@ -152,7 +152,8 @@ Record graph_out := GOut {
   o_pr : list (N * N);                   (* get_priority *)
   o_cycles : list (list N);              (* graph().detect_cycles() *)
   o_infos : list info;                   (* detect(): (cycle, victim) *)
-  o_would : list bool
+  o_would : list bool;
+  o_rec_after : list (N * list N)        (* waiting_for(x) again, after the detection round (run any time later) *)
 }.
 Definition graph_case := (graph_in * graph_out)%type.
 
@@ -164,8 +165,10 @@ Fixpoint build (maxe : N) (t : N) (g : wg) (es : list (N * N * option N)) : wg :
 
 Definition graph_oracle (i : graph_in) (o : graph_out) : bool :=
   let rec := o_rec o in
+  (* the detection round only observes: the recorded relations are the same afterwards, however old they are *)
+  list_eqb (fun a b => N.eqb (fst a) (fst b) && lN_eqb (snd a) (snd b)) rec (o_rec_after o)
   (* every reported cycle is a cycle of the recorded relation *)
-  forallb (is_cycleb rec) (o_cycles o)
+  && forallb (is_cycleb rec) (o_cycles o)
   (* a cycle is reported exactly when there is one *)
   && Bool.eqb (negb (is_nil (o_cycles o))) (cyclicb rec)
   (* every deadlock names a detected cycle and a victim inside it *)
